@@ -1,7 +1,10 @@
 SPECIFICATION Spec
 CONSTANTS
-  Jobs = {j1, j2, j3}
+  Jobs = {"j1", "j2", "j3"}
+  Procs = {p1, p2}
+  Outcomes = {"ok", "fail", "stop"}
+  Collect = TRUE
   FixDrain = TRUE
-INVARIANTS AtMostOnce AllAcceptedRun Completes
+INVARIANTS AtMostOnce AllAcceptedRun AllSurfaced Completes
 PROPERTIES Settles
 CHECK_DEADLOCK FALSE
